@@ -213,24 +213,3 @@ void sim_alloc_free_all_live(void) {
     tab_used = tab_tomb = 0; live_count = live_bytes = 0;
 }
 
-/* ---- random seam ---- */
-static uint64_t rnd_s[2] = {0x9e3779b97f4a7c15ULL, 0xbf58476d1ce4e5b9ULL};
-void sim_random_seed(uint64_t s) {
-    uint64_t z = s + 0x9e3779b97f4a7c15ULL;
-    for(int i = 0; i < 2; i++) {
-        z += 0x9e3779b97f4a7c15ULL;
-        uint64_t x = z;
-        x = (x ^ (x >> 30)) * 0xbf58476d1ce4e5b9ULL;
-        x = (x ^ (x >> 27)) * 0x94d049bb133111ebULL;
-        rnd_s[i] = x ^ (x >> 31);
-    }
-    if(!rnd_s[0] && !rnd_s[1]) rnd_s[0] = 1;
-}
-long __wrap_random(void) {
-    /* xoroshiro128+ ; library sees values in [0, 2^31) like random(3) */
-    uint64_t s0 = rnd_s[0], s1 = rnd_s[1], r = s0 + s1;
-    s1 ^= s0;
-    rnd_s[0] = ((s0 << 24) | (s0 >> 40)) ^ s1 ^ (s1 << 16);
-    rnd_s[1] = (s1 << 37) | (s1 >> 27);
-    return (long)(r >> 33);
-}
